@@ -301,6 +301,66 @@ def run_write(case):
     return out
 
 
+def run_write_concurrent(case):
+    """two threads send one packet each through one SocketTransport (the application and the CRTP tunnel share the CPX link); the
+    harness decides in which order their calls on the socket take place: the stream must still be the two frames, whole, in either order"""
+    import threading
+    import cflib.cpx.transports as T
+    from props.c11_cache import _Gate
+    out = Outcome()
+    pkts = case['packets']
+    gate = _Gate(case['order'])
+
+    class _GatedSocket(_ScriptSocket):
+        def send(self, data):
+            gate.turn()
+            return _ScriptSocket.send(self, data)
+
+        def sendall(self, data):
+            gate.turn()
+            _ScriptSocket.send(self, data)
+    sock = _GatedSocket(b'', [])
+    orig = T.socket
+    T.socket = _SockShim(sock)
+    try:
+        with contextlib.redirect_stdout(io.StringIO()):
+            tr = T.SocketTransport('h', 1)
+    finally:
+        T.socket = orig
+    errors = []
+
+    def worker(i):
+        gate.tid.v = i
+        try:
+            tr.writePacket(_mk(pkts[i]))
+        except Exception as e:  # noqa
+            errors.append(repr(e))
+        finally:
+            gate.finish(i)
+    ths = [threading.Thread(target=worker, args=(i,), daemon=True) for i in range(len(pkts))]
+    for t in ths:
+        t.start()
+    for t in ths:
+        t.join(30)
+    out.nontrivial = len(set(case['order'][:3])) > 1
+    out.feat('senders-interleaved' if out.nontrivial else 'senders-one-after-the-other')
+    if errors:
+        out.fail('framing:write-raised:concurrent', repr(errors[:2]))
+    got = bytes(sock.sent)
+    if got not in (_stream(pkts), _stream(pkts[::-1])):
+        out.fail('framing:write:concurrent-senders', 'two senders, socket calls in the order %r: stream %s is neither %s nor %s' % (
+            case['order'], got.hex(), _stream(pkts).hex(), _stream(pkts[::-1]).hex()))
+    return out
+
+
+def write_concurrent_cases(tier):
+    import itertools
+    a = {'src': 3, 'dst': 2, 'fn': 5, 'last': True, 'data': [1, 2, 3, 4, 5]}
+    b = {'src': 3, 'dst': 4, 'fn': 3, 'last': False, 'data': [0xAA] * 9}
+    for order in itertools.product((0, 1), repeat=4):
+        yield {'packets': [a, b], 'order': list(order)}
+
+
 # ---------------------------------------------------------------- (c) routing
 class _NoWaitQueueModule:
     """stands in for the `queue` module inside cflib.cpx while the single-threaded harness makes a transaction: a queue created in
@@ -766,6 +826,7 @@ def subchecks(tier):
         Sub('framing', run_framing, strategy=framing_strategy(), examples={'quick': 1500, 'thorough': 100000}),
         Sub('write', run_write, strategy=st.lists(_pk, min_size=1, max_size=4).map(lambda l: {'packets': l}),
             examples={'quick': 200, 'thorough': 5000}),
+        Sub('write-concurrent-senders', run_write_concurrent, cases=write_concurrent_cases, distinct_by_construction=True),
         Sub('routing', run_routing, strategy=routing_strategy(), examples={'quick': 800, 'thorough': 50000}),
         Sub('tunnel', run_tunnel, strategy=tunnel_strategy(), examples={'quick': 60, 'thorough': 1500}),
         Sub('serial-tunnel', run_serial_tunnel, strategy=tunnel_strategy(), examples={'quick': 60, 'thorough': 1500}),
